@@ -172,6 +172,13 @@ def execute(fbin, outdir, cfg, p, schedule=None, append_runs=1):
     os.makedirs(outdir)
     out = Path(outdir) / "out.bin"
     kw = options(cfg)
+    if cfg.get("stale"):
+        # the output folder still holds the (longer) files of an earlier run: a run without append replaces them
+        junk = (np.arange(4 * (cfg["ns"] + 777) * (cfg["nsites"] + 1), dtype=np.int64) % 251).astype(np.uint8)
+        junk.tofile(str(out))
+        junk[:4000].tofile(os.path.join(outdir, "ap_rms.bin"))
+        junk[:4000].tofile(os.path.join(outdir, "ap_time.bin"))
+        np.save(os.path.join(outdir, "_iblqc_ephysSaturation.samples.npy"), np.ones(cfg["ns"] + 777, dtype=bool))
     labels = cfg.get("labels") if cfg.get("reject") else None
     sm = None
     exc = None
@@ -266,6 +273,7 @@ def config_cases(tier, seed):
               dict(nsites=16, ns=3 * 2560 + 100, nbatch=2560, pmax=3, k_filter=True, reject=True, labels=[0] * 12 + [1, 0, 3, 3]),
               # many workers on a short recording: a worker's first batch would lie past the last one
               dict(nsites=4, ns=5000, nbatch=4096, pmax=6), dict(nsites=4, ns=2560 + 700, nbatch=2560, pmax=6),
+              dict(base, stale=True), dict(base, stale=True, ns2add=50, float32=True),
               dict(base, no_rms=True), dict(base, float32=True), dict(base, float32=True, ns2add=33, wrot="2I"),
               dict(base, wrot="cyclic"), dict(base, wrot="triangular", nc_out=4),
               # two runs in one process whose headers differ only by their sampling delays (same channel count and batch size)
@@ -494,6 +502,6 @@ CHECK = {
     ],
     "clauses": [
         Clause("schedules", "configurations x worker counts x all traces", cases=config_cases, check=config_check, setup=_setup),
-        Clause("joblib", "free-running joblib conformance", cases=joblib_cases, check=joblib_check, setup=_setup),
+        Clause("joblib", "free-running joblib conformance", cases=joblib_cases, check=joblib_check, setup=_setup, serial=True),
     ],
 }
